@@ -271,16 +271,26 @@ fn native_read_bytes(vm: &mut VM, args: &[Value]) -> Result<Value, RuntimeError>
         ));
     }
 
+    // the buffer is a byte buffer of std.bytes: charged under the heap limit before it is built
+    let readable = matches!(vm.get_resource(h), Some(Resource::File(f)) if f.reader.is_some());
+    if readable {
+        vm.charge_byte_buffer(n as usize)?;
+    }
     if let Some(Resource::File(f)) = vm.get_resource_mut(h) {
         if let Some(reader) = f.reader.as_mut() {
             let mut buf = vec![0u8; n as usize];
             return match reader.get_mut().read(&mut buf) {
                 Ok(got) => {
                     buf.truncate(got);
+                    buf.shrink_to_fit();
+                    vm.release_byte_buffer(n as usize - got);
                     let handle = vm.store_resource(Resource::ByteBuffer(ByteBuffer { data: buf }));
                     Ok(Value::int(handle as i64))
                 }
-                Err(e) => Err(fs_error(vm, "fs.read_bytes", format!("read: {}", e))),
+                Err(e) => {
+                    vm.release_byte_buffer(n as usize);
+                    Err(fs_error(vm, "fs.read_bytes", format!("read: {}", e)))
+                }
             };
         }
         return Err(fs_error(
